@@ -27,6 +27,12 @@ reference tables satisfy the well-formedness `PrecTables.WF` that `climb_correct
 qualified-name dot defined, above every other operator and at least 8; IS / IS NOT / AND / OR / IN / NOT IN / `[` /
 `::` defined; `)` `,` `]` not operators; unary minus defined). -/
 theorem code_tables_wf : PrecTables.code.WF := code_wf
+
+/-- the table the statement parser, the `pstmt` / `stmt` drivers and the end-to-end `Pipeline.runText` run with
+(`PrecTables.code`) IS the table regenerated from the running code — hence (by `grammar_eq_spec` below) the reference
+grammar's. So every theorem of this file stated for `Generated.precTables` speaks about the executed parser, and a
+change of any precedence in /repo breaks this obligation at build time. -/
+theorem code_tables_are_the_generated_tables : PrecTables.code = Generated.precTables := by decide
 theorem generated_tables_wf : Generated.precTables.WF := generated_wf
 theorem spec_tables_wf : specTables.WF := spec_wf
 
